@@ -1,7 +1,7 @@
 CONSTANTS
   Variant = "code"
   AtomSet = "full"
-  MaxAtoms = 2
+  MaxAtoms = 3
   MaxParts = 3
   Stride = 1
 INIT Init
